@@ -61,7 +61,7 @@ static long len_quick(int k) { return k < 64 ? k + 1 : 64 + 4 * (long)(k - 64 + 
 static void set08W(const int *d, vcase *c)     /* workspace sweep */
 { set_base(c, d[0], 0, d[1], d[2], d[3], d[4], d[5]); c->lworkmode = 1; c->lwork = wk_tier ? d[6] + 1 : len_quick(d[6]); c->align = d[7] * 4; c->fest = 1; c->tune[6] = 1; c->aux2 = 0xA5; }
 static void set08W8(const int *d, vcase *c)    /* 8x8, natural order: every array kind expands inside the workspace */
-{ set_base(c, d[0], 0, d[1], 0, 0, d[3], 0); c->n = c->m = 8; c->pat = base_pattern(8, d[0]); set_tune(c, TUNE_N8[d[2]]); c->lworkmode = 1; c->lwork = len_quick(64 + d[4]); c->align = d[5] * 4; c->fest = 1; c->tune[6] = 1; c->aux2 = 0xA5; }
+{ set_base(c, d[0], 0, d[1], 0, 0, d[3], 0); c->n = c->m = 8; c->pat = base_pattern(8, d[0]); set_tune(c, TUNE_N8[d[2]]); c->lworkmode = 1; c->lwork = len_quick(64 + d[4]); c->align = d[5] * 4; c->fest = 1; c->tune[6] = 1; c->aux2 = 0xA5; c->aux = d[6] * 2; }
 static void set08Wd(const int *d, vcase *c)    /* deviation-1 patterns at the lengths around typical requirements: multiples of 4 only */
 { set_base(c, d[0], d[1], 0, 0, d[2], d[3], 0); c->lworkmode = 1; c->lwork = 4 * (long)(d[4] + 1) * 8; c->align = d[5] * 4; c->fest = 1; c->tune[6] = 1; c->aux2 = 0x00; }
 static void set08Q(const int *d, vcase *c)     /* size query */
@@ -69,13 +69,13 @@ static void set08Q(const int *d, vcase *c)     /* size query */
 static void set08K(const int *d, vcase *c)     /* k-th growth request fails under library allocation */
 { set_base(c, d[0], d[1], d[2], d[3], d[4], d[5], d[6]); c->lworkmode = 3; c->k = d[7] + 1; c->fest = 1; c->tune[6] = 1; }
 static const family F08Q[] = {
-    { "workspace sweep 8x8: BASE(8) NATURAL x vals2 x tune4 x type4 x lengths{68.. step 4 cycling residues, 1000 lengths} x align2", 6, { 9, 2, 4, 4, 1000, 2 }, set08W8 },
+    { "workspace sweep 8x8: BASE(8) NATURAL x vals2 x tune4 x type4 x lengths{68.. step 4 cycling residues, 1000 lengths} x align2 x {LU, ILU with fill factor 1}", 7, { 9, 2, 4, 4, 1000, 2, 2 }, set08W8 },
     { "workspace sweep: BASE(6) x vals2 x colperm2 x tune3 x type4 x {LU,ILU} x lengths{1..64, then step 4 up to 3072 cycling through the residues mod 4} x align{0,4}", 8, { 9, 2, 2, 3, 4, 2, NLEN_Q, 2 }, set08W },
     { "size query lwork=-1: BASE(6) x dev{0..8} x vals2 x tune3 x type4 x {LU,ILU} x Equil2 x Fact{DOFACT,SamePattern,SamePattern_SameRowPerm} x fill5", 9, { 9, 9, 2, 3, 4, 2, 2, 3, 5 }, set08Q },
     { "k-th growth request fails (library allocation, fill estimate 1): DEV_1(BASE(6)) x vals2 x colperm2 x tune3 x type4 x {LU,ILU} x k{1..14}", 8, { 9, 37, 2, 2, 3, 4, 2, 14 }, set08K },
 };
 static const family F08T[] = {
-    { "workspace sweep 8x8: BASE(8) NATURAL x vals2 x tune4 x type4 x lengths{68.. step 4 cycling residues, 1400 lengths} x align2", 6, { 9, 2, 4, 4, 1400, 2 }, set08W8 },
+    { "workspace sweep 8x8: BASE(8) NATURAL x vals2 x tune4 x type4 x lengths{68.. step 4 cycling residues, 1400 lengths} x align2 x {LU, ILU with fill factor 1}", 7, { 9, 2, 4, 4, 1400, 2, 2 }, set08W8 },
     { "workspace sweep: BASE(6) x vals3 x colperm4 x tune8 x type4 x {LU,ILU} x every byte length 1..3584 x align{0,4}", 8, { 9, 3, 4, 8, 4, 2, LMAX_T, 2 }, set08W },
     { "workspace sweep on DEV_1(BASE(6)) x tune3 x type4 x lengths{32..4096 step 32} x align2", 6, { 9, 37, 3, 4, 128, 2 }, set08Wd },
     { "size query lwork=-1: BASE(6) x dev{0..36} x vals3 x tune8 x type4 x {LU,ILU} x Equil2 x Fact3 x fill5", 9, { 9, 37, 3, 8, 4, 2, 2, 3, 5 }, set08Q },
@@ -98,7 +98,8 @@ static void run_once(const vcase *c, void *work, long lwork, outcome *O, xs *kee
     xs_init(s, T, c->n, c->pat, c->vals, c->stor); s->ilu = c->aux;
     dmat B; make_rhs(T, &s->A_orig, 0, c->rhs, 1, &B); xs_set_rhs(s, &B, 0, 0);
     superlu_options_t opt;
-    if (c->aux) { ilu_opts(&opt); opt.ColPerm = (colperm_t[]){ NATURAL, MMD_ATA, MMD_AT_PLUS_A, COLAMD, MY_PERMC }[c->colperm]; opt.DiagPivotThresh = c->u; opt.Equil = c->equil ? YES : NO; opt.RowPerm = NOROWPERM; }
+    if (c->aux) { ilu_opts(&opt); opt.ColPerm = (colperm_t[]){ NATURAL, MMD_ATA, MMD_AT_PLUS_A, COLAMD, MY_PERMC }[c->colperm]; opt.DiagPivotThresh = c->u; opt.Equil = c->equil ? YES : NO; opt.RowPerm = NOROWPERM;
+                  if (c->aux == 2) { opt.ILU_FillFactor = c->tune[6]; opt.ILU_DropTol = 0.0; } }   /* aux=2: the fill estimate also drives the ILU storage guess */
     else xs_options(c, &opt, s);
     opt.Fact = DOFACT;
     s->work = work; s->lwork = lwork;
@@ -258,17 +259,17 @@ static void set07q(const int *d, vcase *c) { int e[10] = { d[0], d[1], d[2], d[3
 static const int TUNE_N8[4] = { 2, 3, 10, 5 };
 static void set07N8(const int *d, vcase *c)    /* 8x8 bases in natural order: U outgrows nnz(A), so UCOL/USUB expand too */
 {
-    int e[10] = { d[0], 0, d[1], 0, 0, d[3], 0, d[4], 0, d[4] % 3 }; set07(e, c);
+    int e[10] = { d[0], 0, d[1], 0, 0, d[3], 0, d[4], 0, d[4] % 3 }; set07(e, c); c->aux = d[6] * 2;
     c->n = c->m = 8; c->pat = dev1_pattern(8, base_pattern(8, d[0]), d[5]); set_tune(c, TUNE_N8[d[2]]); c->fest = 1; c->tune[6] = 1;
 }
 static void set07R(const int *d, vcase *c)     /* tall matrices through xgstrf are covered by C02; here: row storage + equilibration through the driver */
 { int e[10] = { d[0], d[1], 0, d[2], d[3], d[4], 0, d[5], d[6], 0 }; set07(e, c); c->stor = 1; c->equil = 1; c->vals = 4; }
 static const family F07Q[] = {
-    { "DEV_1(BASE(8)) first 6 deviations, NATURAL order x vals2 x tune{1-col supernodes,(2,1,2..),(2,4,4..),(3,1,4..)} x type4 x scenario x fill estimate 1", 6, { 9, 2, 4, 4, NSCEN, 6 }, set07N8 },
+    { "DEV_1(BASE(8)) first 6 deviations, NATURAL order x vals2 x tune{1-col supernodes,(2,1,2..),(2,4,4..),(3,1,4..)} x type4 x scenario x fill estimate 1 x {LU, ILU with fill factor 1}", 7, { 9, 2, 4, 4, NSCEN, 6, 2 }, set07N8 },
     { "DEV_1(BASE(6)), first 10 deviations x vals2 x colperm2 x tune3 x type4 x {LU,ILU} x scenario(5 fill estimates + 15 workspace lengths x align2 x prefill3) x ws-fill-estimate{1,2,3}", 9, { 9, 10, 2, 2, 3, 4, 2, NSCEN, 3 }, set07q },
 };
 static const family F07T[] = {
-    { "DEV_1(BASE(8)), NATURAL order x vals2 x tune4 x type4 x scenario x fill estimate 1", 6, { 9, 2, 4, 4, NSCEN, 65 }, set07N8 },
+    { "DEV_1(BASE(8)), NATURAL order x vals2 x tune4 x type4 x scenario x fill estimate 1 x {LU, ILU with fill factor 1}", 7, { 9, 2, 4, 4, NSCEN, 65, 2 }, set07N8 },
     { "DEV_1(BASE(6)) x vals3 x colperm4 x tune8 x type4 x {LU,ILU} x scenario x ws-fill-estimate5 x heap-fill3", 10, { 9, 37, 3, 4, 8, 4, 2, NSCEN, 5, 3 }, set07 },
     { "row storage + equilibration: DEV_1(BASE(6)) x colperm4 x tune8 x type4 x scenario x fill5", 7, { 9, 37, 4, 8, 4, NSCEN, 5 }, set07R },
 };
@@ -290,7 +291,9 @@ static void run_C07(const vcase *c, vres *r)
     if (pat_struct_rank(n, n, c->pat) < n) { r->status = 2; return; }
     if (c->aux) WK_COUNT(C_ILU);
     /* reference: library allocation, fill estimate 30, fresh blocks filled 0xA5 */
-    vcase ref = *c; ref.tune[6] = 30; vf_fill_byte = 0xA5;
+    /* aux=2 (ILU whose fill factor doubles as storage guess): the fill factor is a numerical option there, so the reference keeps it */
+    if (c->aux == 2 && c->k < 5) { r->status = 2; return; }
+    vcase ref = *c; if (c->aux != 2) ref.tune[6] = 30; vf_fill_byte = 0xA5;
     outcome base, O; run_once(&ref, NULL, 0, &base, NULL, r);
     if (base.info < 0 || base.info > n) { wk_fail(r, "baseline-failed", "reference run returned info=%ld", base.info); return; }
     if (base.info > 0 && !c->aux) { r->status = 2; return; }
